@@ -13,14 +13,12 @@ type RangeQuerySettings struct {
 }
 
 func (s RangeQuerySettings) validate() error {
-	if s.Max != "" {
-		dur, err := parseDuration(s.Max)
-		if err != nil {
-			return err
-		}
-		if dur == 0 {
-			return errors.New("range_query max value cannot be zero")
-		}
+	dur, err := parseDuration(s.Max)
+	if err != nil {
+		return err
+	}
+	if dur == 0 {
+		return errors.New("range_query max value cannot be zero")
 	}
 
 	if s.Severity != "" {
